@@ -44,6 +44,10 @@ type RunOpts struct {
 	Modes []bool
 	// Logger, if set, is attached as the EVM's debug tracer instead of the recording logger.
 	Logger avm.EVMLogger
+	// OnEvent is called after every recorded debug-tracer / Aspect event (scheduling point seam).
+	OnEvent func(kind byte)
+	// BeforeNew is called right before the EVM is constructed (scheduling point seam).
+	BeforeNew func()
 }
 
 type Run struct {
@@ -193,6 +197,10 @@ func Exec(s *Scn, o RunOpts) *Run {
 		db.AddBalance(to, v)
 		t.FromAfter, t.ToAfter = new(big.Int).Set(db.GetBalance(from)), new(big.Int).Set(db.GetBalance(to))
 		r.Transfers = append(r.Transfers, t)
+	}
+	rec.OnEvent = o.OnEvent
+	if o.BeforeNew != nil {
+		o.BeforeNew()
 	}
 	var logger avm.EVMLogger = rec
 	if o.Logger != nil {
